@@ -12,12 +12,21 @@ its blocks; the expressions that flow into the relation key on send, success ack
 the channel, which sequence); whom `IbcRefund` credits; the arguments that flow into `IntermediateSender`; the key's
 format string.
 
-Two theorems carry a hypothesis that is a genuine limitation of the tree as it stands (both reproduced on the real
-code by the harness, see `fixes/C19-*.md`):
-* `evm_refund_credits_erc20` needs "`IBCCoinToBaseCoin` resolves aliases first, or the aliased voucher of the channel
-  has no bank metadata of its own" — otherwise `alias_metadata_refund_stuck` shows the refund can never be processed;
-* `memo_sender_distinct_per_local_channel_partial` needs "distinct local channels have distinct counterparty channel
-  ids" — otherwise `memo_sender_collision_across_counterparties` shows two counterparties act as one EVM account.
+History of the tree: the success-ack clean-up deleted the wrong key prefix (repaired by 169429b) and
+`IBCCoinToBaseCoin` asked `ManyToOne` before resolving a registered alias, so the refund of an EVM-started transfer of
+an aliased token failed for ever once the voucher had bank metadata (repaired by c4392c5; `genCfg.aliasFirst` is now
+true and `evm_refund_credits_erc20` has no such hypothesis any more; `alias_metadata_refund_stuck` states the defect
+for an explicit configuration with `aliasFirst = false`).
+
+Observation outside the property's text: the memo-call sender is derived from the packet's SOURCE channel (the id the
+counterparty chose), so two counterparties that use the same channel id and sender string share one DERIVED account
+(`memo_sender_collision_across_counterparties`); no LOCAL account can be impersonated (`memo_call_sender_not_local`,
+which depends on the regenerated BODY of `IntermediateSender`: hash, no hand-through), which is what C19 states.
+
+A refund can be TEMPORARILY impossible (token pair toggled off, erc20 module disabled): then the callback returns the
+error, IBC core keeps the packet committed and the relayer retries later (`refund_waits_while_conversion_disabled`);
+`refund_exactly_once` / `evm_refund_credits_erc20` depend on the regenerated fact that every caller on the refund path
+hands its callee's error up (`refundErrorChain`).
 -/
 namespace FxVerif.Props.C19
 open FxVerif.Model.C19 FxVerif.Proofs.C19
@@ -26,21 +35,23 @@ open FxVerif.Model.C19 FxVerif.Proofs.C19
 
 /-- `Keeper.OnRecvPacket`: the conversion block is guarded by exactly "the received denomination is not FX" (evaluated
 on every denomination class), starts by demanding a hex receiver, calls `IBCCoinToEvm`, is followed by the memo block;
-a coin is recognised as returning home by the packet's SOURCE channel; a keeper error becomes an error acknowledgement -/
+a coin is recognised as returning home by the packet's SOURCE channel; a keeper error becomes an error acknowledgement;
+`IntermediateSender` has no early return that hands a hex or bech32 sender string through -/
 theorem genCfg_recvOk : RecvOk genCfg := by
-  refine ⟨by decide, by decide, ?_, by decide, by decide, by decide, by decide⟩
+  refine ⟨by decide, by decide, ?_, by decide, by decide, by decide, by decide, by decide, by decide⟩
   intro d
   cases d <;> simp [genCfg, FxVerif.Gen.C19.recvGuard, evalGuard, Denom.name?]
 
-/-- the relation is recorded under the key of the transfer itself and both callbacks compute the key from the packet's
-SOURCE channel and its sequence -/
+/-- the relation is recorded under the key of the transfer itself, both callbacks compute the key from the packet's
+SOURCE channel and its sequence, and every caller on the refund path (middleware -> keeper -> hook -> IBCCoinRefund ->
+IbcRefund -> ConvertCoin) hands its callee's error up to IBC core -/
 theorem genCfg_sound : Sound genCfg :=
-  ⟨by decide, by decide, by decide, by decide, by decide, by decide, by decide, by decide⟩
+  ⟨by decide, by decide, by decide, by decide, by decide, by decide, by decide, by decide, by decide⟩
 
 /-- every branch of `OnAcknowledgementPacket` / `OnTimeoutPacket` deletes under the prefix, channel end and sequence the
 record was written under -/
 theorem genCfg_removes : Removes genCfg :=
-  ⟨by decide, by decide, by decide, by decide, by decide, by decide, by decide, by decide, by decide⟩
+  ⟨by decide, by decide, by decide, by decide, by decide, by decide, by decide, by decide, by decide, by decide⟩
 
 /-! ## 1. inbound transfer: exact credit in ERC-20 form, or error acknowledgement and nothing changes -/
 
@@ -79,13 +90,14 @@ theorem recv_bech_nonnative_error (s : State) (l : Ch) (t : Tok) (k : RKind) (to
   recvWith_nonhex_error genCfg genCfg_recvOk s l t k to amt m snd ht hk
 
 /-- a reverting memo call makes the whole receive an error with nothing credited; a succeeding one is counted once and
-ran as the sender derived from `data.Sender` and the channel end the generated argument flow names
-(`memo_channel_end`: as the tree stands the packet's SOURCE channel, i.e. the id the counterparty chose) -/
+ran as the account DERIVED from `data.Sender` and the channel end the generated argument flow names
+(`memo_channel_end`: as the tree stands the packet's SOURCE channel, i.e. the id the counterparty chose) — never as a
+local account, whatever the sender string is (hex or bech32 form of a local address included) -/
 theorem recv_memo_call (s : State) (l : Ch) (t : Tok) (k : RKind) (to : Addr) (amt : Nat) (snd : Nat) :
     (let r := step s (.recv l t k to amt .callrev snd); r.2.isRecv false ∧ r.1 = s) ∧
     (let r := step s (.recv l t k to amt .callok snd);
       (r.2.isRecv true ∧ r.1.bal.marker = s.bal.marker + 1 ∧
-        r.1.bal.caller = some (genCfg.memoChan.pick (cpOf s.ctl l) l, snd)) ∨
+        r.1.bal.caller = some (.derived (genCfg.memoChan.pick (cpOf s.ctl l) l) snd)) ∨
       (r.2.isRecv false ∧ r.1 = s)) := by
   have h := recvWith_memo genCfg genCfg_recvOk s l t k to amt snd
   have hs : genCfg.memoSender = true := by decide
@@ -93,6 +105,15 @@ theorem recv_memo_call (s : State) (l : Ch) (t : Tok) (k : RKind) (to : Addr) (a
 
 /-- the channel that flows into the memo-call sender is one of the two ends of the packet's channel -/
 theorem memo_channel_end : genCfg.memoChan = .src ∨ genCfg.memoChan = .dst := by decide
+
+/-- a memo call that moves its caller's funds (a value transfer) never succeeds: it runs as the derived account, which
+holds nothing, whatever the packet's `sender` field names — the hex or bech32 address of a funded local account, of a
+module account or of a contract included.  The packet is answered with an error acknowledgement and NO balance of ANY
+account changes.  Depends on the regenerated body of `IntermediateSender` (no hand-through). -/
+theorem recv_memo_pay_never_moves_local_funds (s : State) (l : Ch) (t : Tok) (k : RKind) (to : Addr) (amt : Nat) (snd : Nat) :
+    let r := step s (.recv l t k to amt .callpay snd)
+    r.2.isRecv false ∧ r.1 = s :=
+  recvWith_memo_pay genCfg genCfg_recvOk s l t k to amt snd
 
 /-- no receive, whatever its outcome, touches commitments, relation records, sequences or logs of outbound transfers -/
 theorem recv_keeps_bookkeeping (s : State) (l : Ch) (t : Tok) (k : RKind) (to : Addr) (amt : Nat) (m : Memo) (snd : Nat) :
@@ -157,48 +178,60 @@ example : ['a', '/', 'b'] ++ '/' :: ['c'] = ['a'] ++ '/' :: ['b', '/', 'c'] := b
 
 /-- (c) which packet fields reach `IntermediateSender` (regenerated argument flow `Keeper.OnRecvPacket` ->
 `HandlerIbcCall` -> `IntermediateSender`): `data.Sender` and the port / channel of ONE end of the packet's channel —
-as the tree stands the SOURCE end, i.e. the identifiers the COUNTERPARTY chose for its side -/
-theorem memo_call_sender_flow {α : Type} (H : List Char → List Char → α) (p : InPkt) :
-    (genCfg.memoChan = .src → memoCallSender H p = H (p.srcPort ++ '/' :: p.srcChannel) p.sender) ∧
-    (genCfg.memoChan = .dst → memoCallSender H p = H (p.dstPort ++ '/' :: p.dstChannel) p.sender) := by
+as the tree stands the SOURCE end, i.e. the identifiers the COUNTERPARTY chose for its side —, and the regenerated BODY
+of `IntermediateSender`: the result is the hash for EVERY sender string; `P` (how a sender string that happens to be a
+local address would be parsed) plays no role because the body has no return in front of the hash -/
+theorem memo_call_sender_flow {α : Type} (H : List Char → List Char → α) (P : List Char → Option α) (p : InPkt) :
+    (genCfg.memoChan = .src → memoCallSender H P p = H (p.srcPort ++ '/' :: p.srcChannel) p.sender) ∧
+    (genCfg.memoChan = .dst → memoCallSender H P p = H (p.dstPort ++ '/' :: p.dstChannel) p.sender) := by
+  have hbody : genCfg.memoHashOnly = true := by decide
   have ha : FxVerif.Gen.C19.memoSenderArgs = ["packet.SourcePort", "packet.SourceChannel", "data.Sender"] ∨
       FxVerif.Gen.C19.memoSenderArgs = ["packet.GetSourcePort()", "packet.GetSourceChannel()", "data.Sender"] ∨
       FxVerif.Gen.C19.memoSenderArgs = ["packet.DestinationPort", "packet.DestinationChannel", "data.Sender"] ∨
       FxVerif.Gen.C19.memoSenderArgs = ["packet.GetDestPort()", "packet.GetDestChannel()", "data.Sender"] := by decide
   rcases ha with ha | ha | ha | ha <;>
-    simp [memoCallSender, ha, inPktVal, intermediate_sender_shape, genCfg, chanSelOf]
+    simp only [memoCallSender, intermediateSenderBody, hbody, ↓reduceIte, ha, List.map, inPktVal, intermediate_sender_shape] <;>
+    simp [genCfg, chanSelOf, ha]
 
-/-- (d) a memo call never runs as a local account (same cryptographic hypotheses as (b)) -/
-theorem memo_call_sender_not_local {α κ : Type} (H : List Char → List Char → α) (acct : κ → α)
-    (hSep : ∀ x y pk, H x y ≠ acct pk) (p : InPkt) : ∀ pk, memoCallSender H p ≠ acct pk := by
+/-- (d) a memo call never runs as a local account — for EVERY packet, in particular one whose `sender` field is the hex
+or bech32 address of a local account (`P` may map it to `acct pk`): the body of `IntermediateSender` hashes, it never
+hands the named address through (same cryptographic hypothesis `hSep` as (b)) -/
+theorem memo_call_sender_not_local {α κ : Type} (H : List Char → List Char → α) (P : List Char → Option α) (acct : κ → α)
+    (hSep : ∀ x y pk, H x y ≠ acct pk) (p : InPkt) : ∀ pk, memoCallSender H P p ≠ acct pk := by
   intro pk
   rcases memo_channel_end with h | h
-  · rw [(memo_call_sender_flow H p).1 h]; exact hSep _ _ pk
-  · rw [(memo_call_sender_flow H p).2 h]; exact hSep _ _ pk
+  · rw [(memo_call_sender_flow H P p).1 h]; exact hSep _ _ pk
+  · rw [(memo_call_sender_flow H P p).2 h]; exact hSep _ _ pk
+
+-- why the body matters: a body that hands a parsed address through runs the call as that local account
+example : ∃ (H : List Char → List Char → Nat ⊕ Nat) (P : List Char → Option (Nat ⊕ Nat)) (acct : Nat → Nat ⊕ Nat),
+    (∀ x y pk, H x y ≠ acct pk) ∧ (match P ['v'] with | some a => a | none => H [] ['v']) = acct 7 :=
+  ⟨fun _ _ => .inl 0, fun _ => some (.inr 7), fun pk => .inr pk, ⟨fun _ _ _ h => (by cases h), rfl⟩⟩
 
 /-- (e) full strength, for a tree that derives the sender from OUR end of the channel (`hdst`; false as the tree
 stands): memo calls of packets that arrive on different local channels, or from different original senders, run as
 different accounts (collision resistance `hInj` as in (b)) -/
 theorem memo_sender_distinct_per_local_channel {α : Type} (H : List Char → List Char → α)
+    (P : List Char → Option α)
     (hInj : ∀ x y x' y', H x y = H x' y' → x = x' ∧ y = y') (hdst : genCfg.memoChan = .dst) (p p' : InPkt)
     (hp : '/' ∉ p.dstPort) (hp' : '/' ∉ p'.dstPort)
-    (hne : p.dstChannel ≠ p'.dstChannel ∨ p.sender ≠ p'.sender) : memoCallSender H p ≠ memoCallSender H p' := by
+    (hne : p.dstChannel ≠ p'.dstChannel ∨ p.sender ≠ p'.sender) : memoCallSender H P p ≠ memoCallSender H P p' := by
   intro h
-  rw [(memo_call_sender_flow H p).2 hdst, (memo_call_sender_flow H p').2 hdst] at h
+  rw [(memo_call_sender_flow H P p).2 hdst, (memo_call_sender_flow H P p').2 hdst] at h
   obtain ⟨h1, h2⟩ := hInj _ _ _ _ h
   rcases hne with hne | hne
   · exact hne (prefix_inj _ _ _ _ hp hp' h1).2
   · exact hne h2
 
-/-- (f) LIMITATION of the tree as it stands (`hsrc`; reproduced on the real code, `fixes/C19-memo-sender-channel.md`):
-the derived sender does not depend on OUR channel.  Two packets that arrive on different local channels from two
+/-- (f) OBSERVATION about the tree as it stands (`hsrc`; reproduced on the real code, `fixes/C19-memo-sender-channel.md`;
+outside C19's text, which speaks of LOCAL accounts): the derived sender does not depend on OUR channel.  Two packets that arrive on different local channels from two
 counterparties which both call their end the same, with the same sender string, run as the same EVM account — for
 every hash function. -/
 theorem memo_sender_collision_across_counterparties {α : Type} (H : List Char → List Char → α)
-    (hsrc : genCfg.memoChan = .src) (p p' : InPkt)
+    (P : List Char → Option α) (hsrc : genCfg.memoChan = .src) (p p' : InPkt)
     (hport : p.srcPort = p'.srcPort) (hch : p.srcChannel = p'.srcChannel) (hs : p.sender = p'.sender) :
-    memoCallSender H p = memoCallSender H p' := by
-  rw [(memo_call_sender_flow H p).1 hsrc, (memo_call_sender_flow H p').1 hsrc, hport, hch, hs]
+    memoCallSender H P p = memoCallSender H P p' := by
+  rw [(memo_call_sender_flow H P p).1 hsrc, (memo_call_sender_flow H P p').1 hsrc, hport, hch, hs]
 
 -- … and such packets exist on different local channels
 example : ∃ p p' : InPkt, p.dstChannel ≠ p'.dstChannel ∧ p.srcPort = p'.srcPort ∧ p.srcChannel = p'.srcChannel ∧ p.sender = p'.sender :=
@@ -207,12 +240,13 @@ example : ∃ p p' : InPkt, p.dstChannel ≠ p'.dstChannel ∧ p.srcPort = p'.sr
 /-- what does hold as the tree stands: when distinct local channels have distinct counterparty ids (the extra hypothesis
 `hcp`), memo calls of packets that arrive on different local channels run as different accounts -/
 theorem memo_sender_distinct_per_local_channel_partial {α : Type} (H : List Char → List Char → α)
+    (P : List Char → Option α)
     (hInj : ∀ x y x' y', H x y = H x' y' → x = x' ∧ y = y') (hsrc : genCfg.memoChan = .src) (p p' : InPkt)
     (hp : '/' ∉ p.srcPort) (hp' : '/' ∉ p'.srcPort)
     (hcp : p.dstChannel ≠ p'.dstChannel → p.srcChannel ≠ p'.srcChannel)
-    (hne : p.dstChannel ≠ p'.dstChannel) : memoCallSender H p ≠ memoCallSender H p' := by
+    (hne : p.dstChannel ≠ p'.dstChannel) : memoCallSender H P p ≠ memoCallSender H P p' := by
   intro h
-  rw [(memo_call_sender_flow H p).1 hsrc, (memo_call_sender_flow H p').1 hsrc] at h
+  rw [(memo_call_sender_flow H P p).1 hsrc, (memo_call_sender_flow H P p').1 hsrc] at h
   obtain ⟨h1, _⟩ := hInj _ _ _ _ h
   exact hcp hne (prefix_inj _ _ _ _ hp hp' h1).2
 
@@ -239,13 +273,15 @@ theorem refund_exactly_once (ops : List Op) :
 /-- The refund is real, not only logged: in any reachable state, an error acknowledgement or a timeout of an in-flight
 EVM-originated transfer of the aliased token raises the sender's ERC-20 balance by exactly the sent amount, changes
 nobody else's ERC-20 balance, leaves the sender (other than the module accounts) with exactly the bank coins he had —
-in EVERY denomination —, appends exactly one log entry and removes exactly the transfer's own record.
-`hmeta`: alias resolution comes first in `IBCCoinToBaseCoin` (a fact of the tree; false as it stands), or the aliased
-voucher of that channel has no bank metadata of its own; see `alias_metadata_refund_stuck` for the other case. -/
+in EVERY denomination —, appends exactly one log entry and removes exactly the transfer's own record — whether or not the
+aliased voucher has bank metadata of its own (`IBCCoinToBaseCoin` resolves the alias first: regenerated fact, true since
+c4392c5).  `hon`: the conversion of the token's pair is not switched off at that moment (otherwise the callback fails
+and the packet waits: `refund_waits_while_conversion_disabled`).  Also depends on the regenerated fact that every
+caller on the refund path hands its callee's error up to IBC core. -/
 theorem evm_refund_credits_erc20 (ops : List Op) (e : SentRec) (mode : Mode) (hm : mode ≠ .ackOk)
     (he : e ∈ (run init ops).ctl.evmSent) (hB : e.tok = .A)
     (hc : ∃ x ∈ (run init ops).ctl.commits, x.1 = e.key)
-    (hmeta : genCfg.aliasFirst = true ∨ e.ch ∉ (run init ops).ctl.vmeta) :
+    (hon : (run init ops).bal.paused = false ∧ (run init ops).bal.off.contains ETok.base = false) :
     let s := run init ops
     let r := step s (.settle e.ch e.seq mode)
     r.2.isDone ∧
@@ -258,14 +294,15 @@ theorem evm_refund_credits_erc20 (ops : List Op) (e : SentRec) (mode : Mode) (hm
   have hE : genCfg.ackErrRefunds = true := by decide
   have hT : genCfg.timeoutRefunds = true := by decide
   have hTo : genCfg.refundToSender = true := by decide
-  exact settle_refund_credits genCfg genCfg_sound hE hT hTo (run init ops) e mode hm h he hB hc hmeta
+  have haf : genCfg.aliasFirst = true := by decide
+  exact settle_refund_credits genCfg genCfg_sound hE hT hTo (run init ops) e mode hm h he hB hc (Or.inl haf) hon
 
 /-- Round trip: in any reachable state, a transfer of the aliased token started from the EVM that is then rejected or
 times out leaves EVERY ERC-20 balance of EVERYBODY, every bank balance of the sender (other than the module accounts)
 and the relation store exactly as they were before the transfer started: the refund gives back exactly what the send
-took, in the form it took it, and nothing else.  (`hmeta` as in `evm_refund_credits_erc20`.) -/
+took, in the form it took it, and nothing else.  (`hon` as in `evm_refund_credits_erc20`.) -/
 theorem evm_send_refund_roundtrip (ops : List Op) (l : Ch) (a : Addr) (amt : Nat) (mode : Mode) (hm : mode ≠ .ackOk)
-    (hmeta : genCfg.aliasFirst = true ∨ l ∉ (run init ops).ctl.vmeta)
+    (hon : (run init ops).bal.paused = false ∧ (run init ops).bal.off.contains ETok.base = false)
     (hok : (step (run init ops) (.send l a .A amt)).2 ≠ .fail) :
     let s := run init ops
     let r := step (step s (.send l a .A amt)).1 (.settle l (nextSeq s.ctl l) mode)
@@ -276,7 +313,8 @@ theorem evm_send_refund_roundtrip (ops : List Op) (l : Ch) (a : Addr) (amt : Nat
   have hE : genCfg.ackErrRefunds = true := by decide
   have hT : genCfg.timeoutRefunds = true := by decide
   have hTo : genCfg.refundToSender = true := by decide
-  exact send_refund_roundtrip genCfg genCfg_sound hE hT hTo (run init ops) h l a amt mode hm hmeta hok
+  have haf : genCfg.aliasFirst = true := by decide
+  exact send_refund_roundtrip genCfg genCfg_sound hE hT hTo (run init ops) h l a amt mode hm (Or.inl haf) hon hok
 
 /-- A transfer that was NOT started from the EVM (plain `MsgTransfer` of FX or of a native coin, with or without a
 token pair), and a transfer of FX — the EVM's own coin — started from the EVM, is refunded in the form it left in: in any reachable state a processed error acknowledgement / timeout puts
@@ -298,20 +336,54 @@ theorem cosmos_refund_in_bank_form (ops : List Op) (l : Ch) (seq : Seq) (p : Pkt
   have hG : genCfg.refundGuarded = true := by decide
   exact settle_refund_cosmos genCfg genCfg_sound hE hT hG (run init ops) l seq p mode hm hl hlk hev
 
-/-- LIMITATION of the tree as it stands (reproduced on the real code, `fixes/C19-alias-metadata-refund.md`): when the
-aliased voucher of the channel has bank metadata of its own (the transfer module writes it for every denom trace in
-`InitGenesis` and in its `MigrateDenomMetadata` migration) and `IBCCoinToBaseCoin` asks `ManyToOne` first (`haf`), the
-refund callback of an in-flight EVM-originated transfer of the aliased token fails in every reachable state: the
-relayer's transaction is rolled back, nothing is refunded, and it fails again on every retry. -/
-theorem alias_metadata_refund_stuck (haf : genCfg.aliasFirst = false) (ops : List Op) (e : SentRec) (mode : Mode)
-    (hm : mode ≠ .ackOk) (he : e ∈ (run init ops).ctl.evmSent) (hB : e.tok = .A)
-    (hc : ∃ x ∈ (run init ops).ctl.commits, x.1 = e.key) (hmeta : e.ch ∈ (run init ops).ctl.vmeta) :
+/-- While the conversion of the aliased token's pair is switched off (governance toggled the pair, or disabled the erc20
+module) the refund callback of an in-flight EVM-originated transfer returns its error in every reachable state: IBC
+core rolls the relayer's transaction back, the state is unchanged, the packet stays committed with its record — and
+once conversion is on again `evm_refund_credits_erc20` applies to the retry.  The refund is delayed, never lost and
+never made in another form.  Depends on the regenerated fact that every caller on the refund path hands the error up. -/
+theorem refund_waits_while_conversion_disabled (ops : List Op) (e : SentRec) (mode : Mode) (hm : mode ≠ .ackOk)
+    (he : e ∈ (run init ops).ctl.evmSent) (hB : e.tok = .A)
+    (hc : ∃ x ∈ (run init ops).ctl.commits, x.1 = e.key)
+    (hoff : (run init ops).bal.paused = true ∨ (run init ops).bal.off.contains ETok.base = true) :
     let s := run init ops
     step s (.settle e.ch e.seq mode) = (s, .stuck s.ctl.rel) := by
   have h := run_inv genCfg genCfg_sound ops init inv_init
   have hE : genCfg.ackErrRefunds = true := by decide
   have hT : genCfg.timeoutRefunds = true := by decide
-  exact settle_refund_stuck genCfg genCfg_sound hE hT (run init ops) e mode hm h he hB hc ⟨haf, hmeta⟩
+  have haf : genCfg.aliasFirst = true := by decide
+  exact settle_refund_disabled genCfg genCfg_sound hE hT (run init ops) e mode hm h he hB hc (Or.inl haf) hoff
+
+/-- why "the error is handed up" matters (tree independent): transfer of 40 started from the EVM, the pair is toggled off,
+the timeout arrives.  With the error propagated the callback fails, nothing changes, and after the pair is toggled on
+again the retry refunds 40 as ERC-20 and removes the record.  With the hook's error swallowed the timeout is
+processed for good: the sender keeps the voucher in bank form, gets no ERC-20 back, and the record stays for ever. -/
+theorem swallowed_refund_error_witness :
+    let ops := [Op.chan 0 1, .fund 5 .A 0 100, .send 0 5 .A 40, .toggle .A 0, .settle 0 1 .timeout, .toggle .A 0,
+      .settle 0 1 .timeout]
+    let good := runWith (refCfg 4) init ops
+    let bad := runWith { refCfg 4 with refundErrPropagates := false, refundCached := true } init ops
+    sget good.bal.erc (5, ETok.base) = 100 ∧ sget good.bal.bank (5, Denom.vA 0) = 0 ∧ good.ctl.rel = [] ∧
+      good.ctl.refundLog = [⟨0, 1, 5, .A, 40, true⟩] ∧
+    sget bad.bal.erc (5, ETok.base) = 60 ∧ sget bad.bal.bank (5, Denom.vA 0) = 40 ∧ bad.ctl.rel = [(0, 1)] ∧
+      bad.ctl.refundLog = [⟨0, 1, 5, .A, 40, false⟩] ∧ bad.ctl.commits = [] := by
+  decide
+
+/-- The defect repaired by c4392c5, for an explicit configuration that asks `ManyToOne` first (`haf`): when the aliased
+voucher of the channel has bank metadata of its own (the transfer module writes it for every denom trace in
+`InitGenesis` and in its `MigrateDenomMetadata` migration), the refund callback of an in-flight EVM-originated transfer
+of the aliased token fails in every state reachable under that configuration, and fails again on every retry.
+(`fixes/C19-alias-metadata-refund.md`; `genCfg.aliasFirst` is true on the repaired tree.) -/
+theorem alias_metadata_refund_stuck (cfg : Cfg) (hs : Sound cfg) (hE : cfg.ackErrRefunds = true)
+    (hT : cfg.timeoutRefunds = true) (haf : cfg.aliasFirst = false) (ops : List Op) (e : SentRec) (mode : Mode)
+    (hm : mode ≠ .ackOk) (he : e ∈ (runWith cfg init ops).ctl.evmSent) (hB : e.tok = .A)
+    (hc : ∃ x ∈ (runWith cfg init ops).ctl.commits, x.1 = e.key) (hmeta : e.ch ∈ (runWith cfg init ops).ctl.vmeta) :
+    let s := runWith cfg init ops
+    stepWith cfg s (.settle e.ch e.seq mode) = (s, .stuck s.ctl.rel) := by
+  have h := run_inv cfg hs ops init inv_init
+  exact settle_refund_stuck cfg hs hE hT (runWith cfg init ops) e mode hm h he hB hc ⟨haf, hmeta⟩
+
+-- the hypotheses are satisfiable: the pre-fix reference configuration is sound
+example : Sound (refCfg 4) ∧ (refCfg 4).aliasFirst = false := ⟨⟨rfl, rfl, rfl, rfl, rfl, rfl, rfl, rfl, rfl⟩, rfl⟩
 
 /-- witness (tree independent): metadata on the voucher of channel 0, transfer of 40 started from the EVM, timeout -/
 theorem alias_metadata_refund_stuck_witness :
@@ -336,7 +408,8 @@ theorem relation_removed_on_failure_partial (s : State) (l : Ch) (seq : Seq) (mo
   have hQ : genCfg.refundSeq = true := by decide
   have hP : genCfg.deleteReports = true := by decide
   intro r hd
-  have := settle_removes_failure genCfg hE hT hS hC hQ hP s l seq mode hm hd
+  have hX : genCfg.refundErrPropagates = true := by decide
+  have := settle_removes_failure genCfg hE hT hS hC hQ hP hX s l seq mode hm hd
   refine ⟨?_, this⟩
   show (l, seq) ∉ (stepWith genCfg s (.settle l seq mode)).1.ctl.rel
   rw [this]; exact not_mem_dropRel _ _
@@ -439,6 +512,20 @@ theorem returning_native_coin_guard_witness :
       .recv true 60 0 0 0 0 0 none := by
   constructor <;> decide
 
+/-- why the BODY of `IntermediateSender` matters (tree independent): account 1 holds FX; a packet whose `sender` field is
+the hex address of account 1 (`10001`) carries a memo call that pays `payAmt` to the sink.  When the body hashes every
+sender string the call runs as the (empty) derived account and fails: error acknowledgement, nothing changes.  With an
+early return that hands a hex sender through, the call runs AS account 1 and its funds move. -/
+theorem hex_sender_handed_through_witness :
+    let ops := [Op.chan 0 1, .fund 1 .F 0 100, .csend 0 1 .F 50, .settle 0 1 .ackOk]
+    let s := runWith (refCfg 4) init ops
+    stepWith (refCfg 4) s (.recv 0 .F .hex 2 1 .callpay 10001) = (s, .recv false 0 0 50 0 0 0 none) ∧
+    (let r := stepWith { refCfg 4 with memoHashOnly := false, memoPassHex := true } s (.recv 0 .F .hex 2 1 .callpay 10001)
+     r.2 = .recv true 1 0 49 0 0 0 none ∧ sget r.1.bal.bank (1, Denom.fx) = 45 ∧ sget r.1.bal.bank (sink, Denom.fx) = 5) ∧
+    (stepWith { refCfg 4 with memoHashOnly := false, memoPassHex := true } s (.recv 0 .F .hex 2 1 .callok 10001)).1.bal.caller =
+      some (.loc 1) := by
+  decide
+
 /-- a processed settlement (or one that found nothing to process) is final: every later acknowledgement or timeout of
 the same (channel, sequence), duplicated or replayed, is a no-op.  (A settlement whose callback failed was rolled back
 by IBC core and can be retried: `alias_metadata_refund_stuck`.) -/
@@ -520,11 +607,11 @@ example : (step (run init [.chan 0 1, .fund 5 .A 0 100, .send 0 5 .A 40]) (.sett
 example : (step (run init [.chan 0 1, .fund 5 .A 0 100, .send 0 5 .A 40]) (.settle 0 1 .ackOk)).2.isDone :=
   ⟨60, 0, 0, 0, 60, 60, _, rfl⟩
 example : (stepWith (refCfg 4) (runWith (refCfg 4) init [.chan 0 1]) (.recv 0 .V .hex 9 7 .callok 1)).2 =
-    .recv true 0 7 0 7 7 1 (some (some 1, 1)) := by decide
+    .recv true 0 7 0 7 7 1 (some (.derived (some 1) 1)) := by decide
 example : (stepWith { refCfg 4 with memoChan := .dst } (runWith (refCfg 4) init [.chan 0 1]) (.recv 0 .V .hex 9 7 .callok 1)).2 =
-    .recv true 0 7 0 7 7 1 (some (some 0, 1)) := by decide
+    .recv true 0 7 0 7 7 1 (some (.derived (some 0) 1)) := by decide
 example : (step (run init [.chan 0 1]) (.recv 0 .V .hex 9 7 .callok 1)).2 =
-    .recv true 0 7 0 7 7 1 (some (genCfg.memoChan.pick 1 0, 1)) := by decide
+    .recv true 0 7 0 7 7 1 (some (.derived (genCfg.memoChan.pick 1 0) 1)) := by decide
 example : (step (run init [.chan 0 1]) (.recv 0 .X .hex 9 7 .none 0)).2 = .recv false 0 0 0 0 0 0 none := by decide
 example : (stepWith (refCfg 4) (runWith (refCfg 4) init [.chan 0 1]) (.recv 0 .A .hex 9 7 .none 0)).2 = .recv false 0 0 0 0 0 0 none := by
   decide
@@ -542,9 +629,10 @@ Theorems of this file:
   genCfg_recvOk, genCfg_sound, genCfg_removes,
   recv_credit_or_error, recv_bech_nonnative_error, recv_memo_call, recv_keeps_bookkeeping,
   intermediate_sender_shape, intermediate_sender_preimage_injective, intermediate_sender_not_local,
-  memo_channel_end, memo_call_sender_flow, memo_call_sender_not_local, memo_sender_distinct_per_local_channel,
+  memo_channel_end, recv_memo_pay_never_moves_local_funds, memo_call_sender_flow, memo_call_sender_not_local, memo_sender_distinct_per_local_channel,
   memo_sender_collision_across_counterparties, memo_sender_distinct_per_local_channel_partial,
-  refund_exactly_once, evm_refund_credits_erc20, evm_send_refund_roundtrip, cosmos_refund_in_bank_form, alias_metadata_refund_stuck, alias_metadata_refund_stuck_witness,
+  refund_exactly_once, evm_refund_credits_erc20, evm_send_refund_roundtrip, cosmos_refund_in_bank_form, refund_waits_while_conversion_disabled, swallowed_refund_error_witness,
+  hex_sender_handed_through_witness, alias_metadata_refund_stuck, alias_metadata_refund_stuck_witness,
   relation_removed_on_failure_partial, relation_removed_always, settle_touches_only_its_record,
   relation_removed_always_reachable, relation_records_are_inflight, evm_transfer_settled_one_way,
   genCfg_is_ref, success_ack_keeps_relation_witness, success_ack_removes_relation_fixed,
